@@ -1066,7 +1066,9 @@ func (w *Wire) Delivered(d *DatagramInfo, mod Mod, now time.Duration) {
 		space := p.Kind.Space()
 		if p.Kind == KindOneRTT {
 			rcv := d.Dir.Other()
-			if p.AckElic && c.HandshakeDoneSeen && !c.DeliveredPN[d.Dir][space][p.PN] && int64(p.PN) > c.maxDeliv1RTT[d.Dir] && len(c.Closes[rcv]) == 0 {
+			// (only from datagrams the network left untouched: a flipped bit in an earlier coalesced packet can
+			// hit its Length field, after which the receiver cannot find the packets behind it)
+			if p.AckElic && c.HandshakeDoneSeen && mod == NoMod && !c.DeliveredPN[d.Dir][space][p.PN] && int64(p.PN) > c.maxDeliv1RTT[d.Dir] && len(c.Closes[rcv]) == 0 {
 				c.awaitAck[rcv][p.PN] = now
 			}
 			if int64(p.PN) > c.maxDeliv1RTT[d.Dir] {
